@@ -28,6 +28,18 @@ theorem inU_iff {w : Nat} {x : Int} : inU w x = true ↔ 0 ≤ x ∧ x < (2 : In
 theorem inS_iff {w : Nat} {x : Int} : inS w x = true ↔ -((2 : Int) ^ (w - 1)) ≤ x ∧ x < (2 : Int) ^ (w - 1) := by
   simp [inS]
 
+theorem inS64_iff {x : Int} : inS 64 x = true ↔ -9223372036854775808 ≤ x ∧ x < 9223372036854775808 := by
+  simp [inS]
+
+theorem inS32_iff {x : Int} : inS 32 x = true ↔ -2147483648 ≤ x ∧ x < 2147483648 := by
+  simp [inS]
+
+/-- division by a positive divisor is always defined -/
+theorem sdivOk_pos {w : Nat} {a b : Int} (h : 0 < b) : sdivOk w a b = true := by
+  have h1 : b ≠ 0 := by omega
+  have h2 : ¬ b = -1 := by omega
+  simp [sdivOk, h1, h2]
+
 theorem exactD_iff {x : Int} : exactD x = true ↔ -9007199254740992 ≤ x ∧ x ≤ 9007199254740992 := by
   simp [exactD]
 
@@ -95,6 +107,15 @@ theorem and_not7 (m : Nat) (h : m < 2 ^ 64) : m &&& 18446744073709551608 = m / 8
 
 @[simp] theorem minmax_second (a b : Int) : (minmax a b).second = max a b := by
   unfold minmax; split <;> simp <;> omega
+
+/-! ### `Flow` (join-style translation of functions with character cursors) -/
+
+theorem Flow.bind_next {σ α β ρ : Type} (a : α) (k : α → Flow σ β ρ) : (Flow.next a : Flow σ α ρ).bind k = k a := rfl
+theorem Flow.bind_exit {σ α β ρ : Type} (o : Outcome σ ρ) (k : α → Flow σ β ρ) : (Flow.exit o : Flow σ α ρ).bind k = .exit o := rfl
+theorem Flow.seq_next {σ α ρ : Type} (a : α) (k : α → Outcome σ ρ) : (Flow.next a : Flow σ α ρ).seq k = k a := rfl
+theorem Flow.seq_exit {σ α ρ : Type} (o : Outcome σ ρ) (k : α → Outcome σ ρ) : (Flow.exit o : Flow σ α ρ).seq k = o := rfl
+theorem Flow.andThen_next {σ α ρ : Type} (a : α) (k : α → Bool) : (Flow.next a : Flow σ α ρ).andThen k = k a := rfl
+theorem Flow.andThen_exit {σ α ρ : Type} (o : Outcome σ ρ) (k : α → Bool) : (Flow.exit o : Flow σ α ρ).andThen k = true := rfl
 
 /-- closes `Outcome.normal s r = Outcome.normal s' r'` (after the translated definition was unfolded) when the
     components are equal up to linear arithmetic — so that a tie does not depend on the order of operands in the
